@@ -24,9 +24,9 @@ Proof. exact Proofs_Locate.locate_exact_at_stated. Qed.
 Print Assumptions locate_exact_at_stated.
 
 (* an insertion that carries no context goes exactly to its stated line (when that is inside the
-   unconsumed part of the file and the hunk does not claim an empty file for a non-empty one) *)
+   unconsumed part of the file) *)
 Theorem insertion_at_stated : forall f h ws off F lo,
-  rcount (oldr h) = 0%Z -> ~ (rstart (oldr h) = 0%Z /\ f <> []) ->
+  rcount (oldr h) = 0%Z ->
   (Z.of_nat lo <= stated_pos h off <= Z.of_nat (length f))%Z ->
   locate_hunk f h ws off F lo = Some (mkLoc (Z.to_nat (stated_pos h off)) 0 0).
 Proof. exact Proofs_Locate.locate_insertion_complete. Qed.
